@@ -142,3 +142,45 @@ func c09deep(c *Ctx, g *c07gen) {
 		}
 	}
 }
+
+// c09declining: merge functions that decline with a typed nil pointer of a concrete node type
+// (IsNil, but not == nil), and functions that merge only some pairs.
+func c09declining(c *Ctx, g *c07gen) {
+	r := c.R
+	g.small = true
+	// pinned: 2 + 2 distinct nodes, always declined with a typed nil
+	for k := 0; k < 6; k++ {
+		c09sliceCase(c, fmt.Sprintf("never:typed%d", k), []*TNode{T("NOTE", "a", ""), T("NOTE", "b", "")}, []*TNode{T("NOTE", "c", ""), T("NOTE", "d", "")}, "pinned typed-nil decline")
+		c09sliceCase(c, fmt.Sprintf("eq:typed%d", k), []*TNode{T("NOTE", "a", ""), T("NOTE", "b", "")}, []*TNode{T("NOTE", "b", ""), T("NOTE", "d", "")}, "pinned typed-nil decline")
+	}
+	n := c.N(120, 3000)
+	for i := 0; i < n; i++ {
+		var a, b []*TNode
+		elem := func() *TNode {
+			t := g.node(r.Intn(2))
+			if r.Chance(1, 3) {
+				t.Ptr = r.Pick([]string{"P1", "X2", ""})
+			}
+			return t
+		}
+		for k := r.Intn(4); k > 0; k-- {
+			a = append(a, elem())
+		}
+		for k := 1 + r.Intn(4); k > 0; k-- {
+			if len(a) > 0 && r.Chance(1, 2) {
+				b = append(b, c09related(g, a[r.Intn(len(a))]))
+			} else {
+				b = append(b, elem())
+			}
+		}
+		if c09needsDoc(append(append([]*TNode{}, a...), b...)) {
+			continue
+		}
+		k := r.Intn(6)
+		for _, fn := range []string{"never", "eq", "sameptr", "evenlen"} {
+			c09sliceCase(c, fmt.Sprintf("%s:typed%d", fn, k), a, b, "declining")
+		}
+		c09sliceCase(c, "sameptr", a, b, "declining")
+		c09sliceCase(c, "evenlen", a, b, "declining")
+	}
+}
